@@ -297,7 +297,20 @@ class SymNum(Sym):
         return SymNum(-z3.ToInt(-self.e))
 
     def __round__(self, n=None):
-        raise Unsupported("round of symbolic")
+        if n is not None:
+            raise Unsupported("round(x, n) of symbolic")
+        if self.e.sort() == z3.IntSort():
+            return self
+        # round-half-to-even of a non-negative real: fork on the (small) integer result
+        x = self.e
+        half = z3.RealVal("1/2")
+        for q in range(0, 4 * self.FLOORDIV_MAX + 1):
+            c = z3.And(x > q - half, x < q + half)
+            if q % 2 == 0:
+                c = z3.Or(c, x == q - half, x == q + half)
+            if CUR.branch(z3.And(x >= 0, c)):
+                return q
+        raise Abort()
 
     def __float__(self):
         raise TypeError("symbolic float()")
